@@ -32,7 +32,7 @@ COMPONENTS = {
              "csv", "io.TextIOWrapper/BufferedReader", "zipfile", "xml.etree.ElementTree", "xlrd"],
     "stub": ["SimFS/SimRaw", "text / ODF / XLSX peers (encoders)", "scheduler-driven client (eager / lazy)"],
 }
-PROBES_REQUIRED = ["second-pass-on-the-same-reader", "zero-item-row", "error-inspected-late", "culprit-last-column", "culprit-right-after-header", "short-row", "long-row",
+PROBES_REQUIRED = ["other-data-set-validated-between-construction-and-use", "second-pass-on-the-same-reader", "zero-item-row", "error-inspected-late", "culprit-last-column", "culprit-right-after-header", "short-row", "long-row",
                    "format:delimited", "format:fixed", "format:ods", "format:excel", "check-rejection"]
 
 
@@ -56,6 +56,8 @@ def generate(seed, tier):
             "api": swarm.choice(["Reader", "rows"]),
             "consumer": {"style": swarm.choice(["eager", "lazy"]), "lag": swarm.choice([1, 2, 3, 100])},
             "prepass": swarm.choice([None, None, None, 0, 1, 2, -1]) if source == "path" else None,
+            # another data set is validated with the same Cid object between construction and use of the reader
+            "other_data_between": tabular.draw_table(rng, spec, 4, bad_rate=0.0, ragged_rate=0.0) if swarm.random() < 0.2 else None,
             "ods_features": sorted(swarm.sample(["colruns", "colstyle", "stored", "utf16"], swarm.randint(0, 2)))}
 
 
@@ -86,6 +88,13 @@ def execute(scenario):
         else:
             source = path
         run = lib.ReadRun(cid, source, scenario.get("api", "Reader"), "yield")
+        if scenario.get("other_data_between"):
+            tabular.store(fs, "other-" + path, spec, scenario["other_data_between"])
+            between = lib.ReadRun(cid, "other-" + path, "Reader", "continue")
+            while between.step():
+                pass
+            between.close()
+            result.probe("other-data-set-validated-between-construction-and-use")
         prepass = scenario.get("prepass")
         if prepass is not None and scenario.get("api", "Reader") == "Reader" and source_kind == "path":
             # the same Reader object has been iterated before (k rows, or completely): the judged pass starts over
@@ -199,6 +208,10 @@ def candidates(scenario):
         yield lib.with_value(scenario, ["source"], "path")
     if scenario.get("prepass") is not None:
         yield lib.with_value(scenario, ["prepass"], None)
+    if scenario.get("other_data_between"):
+        yield lib.with_value(scenario, ["other_data_between"], None)
+        for candidate in lib.drop_candidates(scenario, ["other_data_between"], minimum=1):
+            yield candidate
     if scenario.get("api") != "Reader":
         yield lib.with_value(scenario, ["api"], "Reader")
     if scenario["cid"].get("line_delimiter", "lf") != "lf":
